@@ -55,7 +55,10 @@ Inductive note := Added (n : text) (a : addr) | Removed (n : text) (a : addr).
 Record facts := {
   lookup_guarded : bool;        (* a command that is not text cannot raise out of _work *)
   notify_only_present : bool;   (* _remove_service calls on_service_removed only when it removed an entry *)
-  tcp_timeout : bool            (* the accepted TCP socket gets a timeout before recv *)
+  tcp_timeout : bool;           (* the accepted TCP socket gets a timeout before recv *)
+  reply_guarded : bool;         (* brine.dump(reply) sits inside the guarded region of _work *)
+  register_validates : bool;    (* cmd_register refuses an address it could not send back in a reply *)
+  tcp_closes_unanswered : bool  (* TCP _recv closes accepted sockets whose request got no reply *)
 }.
 
 (* what one request asks for, after decoding and all the type checks the commands perform before
@@ -77,6 +80,7 @@ Section Model.
 Variable upper lower : text -> text.
 Variable fso : list pyval -> list pyval.
 Variable keq : pyval -> pyval -> bool.
+Variable enc : pyval -> bool.       (* brine.dump(v) succeeds where _work calls it (no RecursionError: load accepts deeper nesting than dump) *)
 Variable F : facts.
 Variable pruning : Z.
 
@@ -167,19 +171,26 @@ Fixpoint texts_of (l : list pyval) : option (list text) :=
   | PStr c :: r => match texts_of r with Some ts => Some (c :: ts) | None => None end
   | _ => None
   end.
-Definition classify_args (k : cmd) (al : list pyval) : req :=
+Definition addr_val (a : addr) : pyval := PTuple [PStr (fst a); snd a].
+(* the repaired cmd_register evaluates brine.dump(((host, port),)) before touching the table *)
+Definition accepted (host : text) (port : pyval) : bool :=
+  negb (register_validates F) || enc (PTuple [addr_val (host, port)]).
+Definition classify_args (host : text) (k : cmd) (al : list pyval) : req :=
   match k, al with
   | CQuery, [PStr n] => RQuery (upper n)
   | CQuery, [PBytes _] => RQueryMiss
   | CRegister, [names; port] =>
       match py_iter names with
-      | Some l => match texts_of l with Some ts => RRegister (map upper ts) port | None => RNone end
+      | Some l => match texts_of l with
+                  | Some ts => if accepted host port then RRegister (map upper ts) port else RNone
+                  | None => RNone
+                  end
       | None => RNone
       end
   | CUnregister, [port] => RUnregister port
   | _, _ => RNone            (* wrong argument count or types: TypeError/AttributeError inside the guard *)
   end.
-Definition classify (v : pyval) : req :=
+Definition classify (host : text) (v : pyval) : req :=
   match py_iter v with
   | Some [magic; c; args] =>
       if negb (is_text RPYC magic) then RNone else
@@ -187,7 +198,7 @@ Definition classify (v : pyval) : req :=
       | PStr ct =>
           match find_cmd (lower ct) with
           | None => RNone
-          | Some k => match py_iter args with Some al => classify_args k al | None => RNone end
+          | Some k => match py_iter args with Some al => classify_args host k al | None => RNone end
           end
       | PBytes _ => RNone                         (* "cmd_b'..'" is never an attribute *)
       | _ => if lookup_guarded F then RNone else RDie AttributeError   (* cmd.lower() *)
@@ -195,7 +206,6 @@ Definition classify (v : pyval) : req :=
   | _ => RNone                                    (* unpacking fails inside the first guard *)
   end.
 
-Definition addr_val (a : addr) : pyval := PTuple [PStr (fst a); snd a].
 Definition OKv : pyval := PStr (T "OK").
 
 Definition exec (now : Z) (host : text) (r : req) (s : services) : outcome :=
@@ -208,9 +218,17 @@ Definition exec (now : Z) (host : text) (r : req) (s : services) : outcome :=
   | RUnregister p => let '(s', m) := cmd_unregister (host, p) s in Next s' m (Some OKv)
   end.
 
+(* self._send(brine.dump(reply), addrinfo): the command has already run when the reply is encoded *)
+Definition deliver (o : outcome) : outcome :=
+  match o with
+  | Next s m (Some v) =>
+      if enc v then o else if reply_guarded F then Next s m None else Dead OtherError   (* RecursionError *)
+  | _ => o
+  end.
+
 (* one iteration of _work on an already decoded datagram *)
 Definition work_val (now : Z) (host : text) (s : services) (v : pyval) : outcome :=
-  exec now host (classify v) s.
+  deliver (exec now host (classify host v) s).
 
 (* brine.load inside the first guard: a decoding error just continues.  [None]: the decoder model
    makes no prediction (a slice built from a frozenset); any value Python builds there is covered by
@@ -235,19 +253,27 @@ Fixpoint state_after (rh : list event) : services :=
   | (now, h, r) :: older => let s := state_after older in next_state (exec now h r s) s
   end.
 
-(* ---------- the TCP accept loop: clients are served strictly in accept order ---------- *)
+(* ---------- the TCP accept loop: clients are served strictly in accept order.  An accepted socket
+   stays open until a reply is sent on it; [pending] counts those that got none, [fdmax] is how many
+   the process can hold: with [pending >= fdmax] accept() fails for this and every later client. ---------- *)
 Inductive client := Silent | Sends (v : pyval).
 Inductive tcp_result := TStarved | TReached (reply : option pyval).
-Fixpoint tcp_run (s : services) (cs : list (Z * text * client)) : list tcp_result :=
+Definition no_reply (rep : option pyval) : nat := match rep with None => 1%nat | Some _ => O end.
+Fixpoint tcp_run (fdmax pending : nat) (s : services) (cs : list (Z * text * client)) : list tcp_result :=
   match cs with
   | [] => []
-  | (now, h, Silent) :: r =>
-      if tcp_timeout F then TReached None :: tcp_run s r      (* recv times out: continue *)
-      else map (fun _ => TStarved) cs                          (* recv never returns *)
-  | (now, h, Sends v) :: r =>
-      match work_val now h s v with
-      | Next s' _ rep => TReached rep :: tcp_run s' r
-      | Dead _ => TReached None :: map (fun _ => TStarved) r   (* the loop is gone *)
+  | (now, h, c) :: r =>
+      let pending := if tcp_closes_unanswered F then O else pending in       (* swept at the top of _recv *)
+      if Nat.leb fdmax pending then map (fun _ => TStarved) cs                (* accept: EMFILE, for good *)
+      else match c with
+      | Silent =>
+          if tcp_timeout F then TReached None :: tcp_run fdmax pending s r    (* recv times out, socket closed *)
+          else map (fun _ => TStarved) cs                                      (* recv never returns *)
+      | Sends v =>
+          match work_val now h s v with
+          | Next s' _ rep => TReached rep :: tcp_run fdmax (pending + no_reply rep) s' r
+          | Dead _ => TReached None :: map (fun _ => TStarved) r               (* the loop is gone *)
+          end
       end
   end.
 Fixpoint sends_of (cs : list (Z * text * client)) : list (Z * text * client) :=
@@ -262,17 +288,25 @@ Fixpoint results_of_sends (cs : list (Z * text * client)) (rs : list tcp_result)
   | _ :: cr, x :: rr => x :: results_of_sends cr rr
   | _, _ => []
   end.
+(* when every client connects at time 0: a silent client ahead in the queue costs the server's timeout *)
+Fixpoint reached_at_ms (timeout_ms : Z) (cs : list client) (i : nat) : Z :=
+  match cs, i with
+  | _, O => 0
+  | Silent :: r, S j => timeout_ms + reached_at_ms timeout_ms r j
+  | _ :: r, S j => reached_at_ms timeout_ms r j
+  | [], S _ => 0
+  end.
 End Model.
 
 (* ---------- the _work skeleton as emitted by tools/pygen ---------- *)
 Inductive wguard := GNone | GSock | GAny.        (* not in a try / except socket errors / except Exception *)
 Inductive wstmt :=
-| WRecv | WLoadUnpack | WMagicCheck | WTextCheck | WLookup | WLookupIfText | WUnknownCheck | WCall | WSendReply.
+| WRecv | WLoadUnpack | WMagicCheck | WTextCheck | WLookup | WLookupIfText | WUnknownCheck | WCall | WDump | WSendReply.
 Definition wstmt_eqb (a b : wstmt) : bool :=
   match a, b with
   | WRecv, WRecv | WLoadUnpack, WLoadUnpack | WMagicCheck, WMagicCheck | WTextCheck, WTextCheck
   | WLookup, WLookup | WLookupIfText, WLookupIfText | WUnknownCheck, WUnknownCheck | WCall, WCall
-  | WSendReply, WSendReply => true
+  | WDump, WDump | WSendReply, WSendReply => true
   | _, _ => false
   end.
 Definition wguard_eqb (a b : wguard) : bool :=
@@ -284,19 +318,46 @@ Fixpoint skel_eqb (a b : skeleton) : bool :=
   | (x, g) :: a', (y, h) :: b' => wstmt_eqb x y && wguard_eqb g h && skel_eqb a' b'
   | _, _ => false
   end.
-(* the four shapes the model covers: the lookup is bare, preceded by an isinstance(cmd, str) test,
-   made conditional on that test, or inside its own try/except Exception *)
-Definition skel_of (lk : list (wstmt * wguard)) : skeleton :=
+(* the shapes the model covers.  Lookup: bare, preceded by an isinstance(cmd, str) test, made
+   conditional on that test, or inside its own try/except Exception.  Tail: the reply is encoded
+   (brine.dump) in the else branch, outside the guard, or inside the try with the command call;
+   _send itself may sit in either place. *)
+Definition skel_of (lk tl : list (wstmt * wguard)) : skeleton :=
   [(WRecv, GSock); (WLoadUnpack, GAny); (WMagicCheck, GNone)] ++ lk ++
-  [(WUnknownCheck, GNone); (WCall, GAny); (WSendReply, GNone)].
-Definition skel_bare := skel_of [(WLookup, GNone)].
-Definition skel_textcheck := skel_of [(WTextCheck, GNone); (WLookup, GNone)].
-Definition skel_iftext := skel_of [(WLookupIfText, GNone)].
-Definition skel_try := skel_of [(WLookup, GAny)].
-Definition skel_known (k : skeleton) : bool :=
-  skel_eqb k skel_bare || skel_eqb k skel_textcheck || skel_eqb k skel_iftext || skel_eqb k skel_try.
-Definition skel_guarded (k : skeleton) : bool :=
-  skel_eqb k skel_textcheck || skel_eqb k skel_iftext || skel_eqb k skel_try.
+  [(WUnknownCheck, GNone); (WCall, GAny)] ++ tl.
+Definition lk_bare := [(WLookup, GNone)].
+Definition lk_textcheck := [(WTextCheck, GNone); (WLookup, GNone)].
+Definition lk_iftext := [(WLookupIfText, GNone)].
+Definition lk_try := [(WLookup, GAny)].
+Definition tl_unguarded := [(WDump, GNone); (WSendReply, GNone)].
+Definition tl_dump_guarded := [(WDump, GAny); (WSendReply, GNone)].
+Definition tl_all_guarded := [(WDump, GAny); (WSendReply, GAny)].
+Definition skel_in (k : skeleton) (lks tls : list (list (wstmt * wguard))) : bool :=
+  existsb (fun lk => existsb (fun tl => skel_eqb k (skel_of lk tl)) tls) lks.
+Definition all_lk := [lk_bare; lk_textcheck; lk_iftext; lk_try].
+Definition all_tl := [tl_unguarded; tl_dump_guarded; tl_all_guarded].
+Definition skel_known (k : skeleton) : bool := skel_in k all_lk all_tl.
+Definition skel_guarded (k : skeleton) : bool := skel_in k [lk_textcheck; lk_iftext; lk_try] all_tl.
+Definition skel_reply_guarded (k : skeleton) : bool := skel_in k all_lk [tl_dump_guarded; tl_all_guarded].
+
+(* cmd_register skeleton *)
+Inductive gstmt := GJoinCheck | GReplyCheck | GAddLoop | GReturnOK.
+Definition gstmt_eqb (a b : gstmt) : bool :=
+  match a, b with
+  | GJoinCheck, GJoinCheck | GReplyCheck, GReplyCheck | GAddLoop, GAddLoop | GReturnOK, GReturnOK => true
+  | _, _ => false
+  end.
+Fixpoint gskel_eqb (a b : list gstmt) : bool :=
+  match a, b with
+  | [], [] => true
+  | x :: a', y :: b' => gstmt_eqb x y && gskel_eqb a' b'
+  | _, _ => false
+  end.
+Definition gskel_plain : list gstmt := [GJoinCheck; GAddLoop; GReturnOK].
+Definition gskel_validating : list gstmt := [GJoinCheck; GReplyCheck; GAddLoop; GReturnOK].
+Definition gskel_validating' : list gstmt := [GReplyCheck; GJoinCheck; GAddLoop; GReturnOK].
+Definition gskel_validates (k : list gstmt) : bool := gskel_eqb k gskel_validating || gskel_eqb k gskel_validating'.
+Definition gskel_known (k : list gstmt) : bool := gskel_eqb k gskel_plain || gskel_validates k.
 
 (* _remove_service skeleton *)
 Inductive rstmt := RTestPresent | RPop | RPopKeep | RDelIfEmpty | RNotify | RNotifyIfPresent.
@@ -321,10 +382,10 @@ Definition rskel_only_present (k : list rstmt) : bool :=
   rskel_eqb k rskel_tested || rskel_eqb k rskel_popped.
 
 (* TCPRegistryServer._recv: the calls on the listening and the accepted socket, in program order *)
-Inductive tstmt := TAccept | TSetTimeout | TPeerName | TRecvData | TStore | TOther.
+Inductive tstmt := TSweep | TAccept | TSetTimeout | TPeerName | TRecvData | TStore | TOther.
 Definition tstmt_eqb (a b : tstmt) : bool :=
   match a, b with
-  | TAccept, TAccept | TSetTimeout, TSetTimeout | TPeerName, TPeerName | TRecvData, TRecvData
+  | TSweep, TSweep | TAccept, TAccept | TSetTimeout, TSetTimeout | TPeerName, TPeerName | TRecvData, TRecvData
   | TStore, TStore | TOther, TOther => true
   | _, _ => false
   end.
@@ -340,6 +401,14 @@ Fixpoint tskel_before_recv (seen_accept seen_to : bool) (k : list tstmt) : bool 
 Definition tskel_timeout (k : list tstmt) : bool := tskel_before_recv false false k.
 Fixpoint tskel_count (x : tstmt) (k : list tstmt) : nat :=
   match k with [] => O | y :: r => (if tstmt_eqb x y then 1 else 0) + tskel_count x r end%nat.
+(* sockets left over from requests that got no reply are closed before the next accept *)
+Fixpoint tskel_sweeps (k : list tstmt) : bool :=
+  match k with
+  | [] => false
+  | TSweep :: _ => true
+  | TAccept :: _ => false
+  | _ :: r => tskel_sweeps r
+  end.
 Definition tskel_known (k : list tstmt) : bool :=
   Nat.eqb (tskel_count TAccept k) 1 && Nat.eqb (tskel_count TRecvData k) 1 && Nat.eqb (tskel_count TStore k) 1.
 
@@ -380,8 +449,19 @@ Definition ascii_text (t : text) : bool := forallb (fun c => (c <? 128)%N) t.
 Definition iter_exact (v : pyval) : bool :=
   match v with PFset l => Nat.leb (List.length l) 1 | _ => true end.
 Definition py_iter0 := py_iter fso_id.
+(* nesting the implementation handles without nearing the interpreter's recursion limit *)
+Fixpoint shallow (fuel : nat) (v : pyval) : bool :=
+  match fuel with
+  | O => false
+  | S f => match v with
+           | PTuple l | PFset l => forallb (shallow f) l
+           | PSlice a b c => shallow f a && shallow f b && shallow f c
+           | _ => true
+           end
+  end.
+Definition enc_all (v : pyval) : bool := true.
 Definition domain_ok (v : pyval) : bool :=
-  iter_exact v &&
+  shallow 64 v && iter_exact v &&
   match py_iter0 v with
   | Some [magic; PStr ct; args] =>
       if negb (is_text RPYC magic) then true else
@@ -421,8 +501,11 @@ Definition services_sx (s : services) : sx :=
              SL [text_sx (fst e); SL (map (fun x : addr * Z => SL [addr_sx (fst x); SI (snd x)]) (snd e))]) s).
 Definition facts_of_sx (x : sx) : facts :=
   match x with
-  | SL [g; n; t] => {| lookup_guarded := sx_bool g; notify_only_present := sx_bool n; tcp_timeout := sx_bool t |}
-  | _ => {| lookup_guarded := false; notify_only_present := false; tcp_timeout := false |}
+  | SL [g; n; t; rg; rv; tc] =>
+      {| lookup_guarded := sx_bool g; notify_only_present := sx_bool n; tcp_timeout := sx_bool t;
+         reply_guarded := sx_bool rg; register_validates := sx_bool rv; tcp_closes_unanswered := sx_bool tc |}
+  | _ => {| lookup_guarded := false; notify_only_present := false; tcp_timeout := false;
+            reply_guarded := false; register_validates := false; tcp_closes_unanswered := false |}
   end.
 Definition reply_sx (P : bparams) (r : option pyval) : sx :=
   match r with
@@ -431,7 +514,7 @@ Definition reply_sx (P : bparams) (r : option pyval) : sx :=
   end.
 Definition text_of_bytes (b : list byte) : text := map Byte.to_N b.
 
-Definition c_work_val (F : facts) (pr : Z) := work_val ascii_upper ascii_lower fso_id pyval_eqb F pr.
+Definition c_work_val (F : facts) (pr : Z) := work_val ascii_upper ascii_lower fso_id pyval_eqb enc_all F pr.
 
 (* the harness keeps calling _work after the loop died, so does the runner; the table is unchanged *)
 Fixpoint run_events (F : facts) (P : bparams) (pr : Z) (s : services) (evs : list sx) : list sx :=
@@ -479,14 +562,15 @@ Definition tcp_result_sx (P : bparams) (t : tcp_result) : sx :=
 
 Definition run_registry (x : sx) : sx :=
   match x with
-  | SL [op; f; SL [pr; p]; SL l] =>
+  | SL [op; f; SL (pr :: p :: rest); SL l] =>
       let F := facts_of_sx f in
       let P := params_of_sx p in
+      let fdmax := match rest with [n] => sx_nat n | _ => 1000%nat end in
       if is_tag "hist" op then SL (run_events F P (sx_z pr) [] l)
       else if is_tag "tcp" op then
         match clients_of_sx P l with
         | Some cs => SL (map (tcp_result_sx P)
-                           (tcp_run ascii_upper ascii_lower fso_id pyval_eqb F (sx_z pr) [] cs))
+                           (tcp_run ascii_upper ascii_lower fso_id pyval_eqb enc_all F (sx_z pr) fdmax O [] cs))
         | None => SL [SS "unmod"]
         end
       else bad_input
